@@ -26,7 +26,10 @@ CLAIMED = {
         "(all definitions, analysed through an instantiation present in the build) is provably within X's index range on every path "
         "from range guards with error()/throw exits, loop shapes and grow()/resize() post-conditions; at() guards entail non-emptiness "
         "and min<=i<=max; xapyb/sapyb/axpby compare every operand's range with *this before touching elements. The history part of C11 "
-        "(values surviving resize/grow, zero fill, aliasing, iteration order) is NOT decided.",
+        "(values surviving resize/grow, aliasing, iteration order) is NOT decided, except: Array<1>::resize zero-fills exactly the "
+        "complement of the recorded old range, and every bulk copy into this->begin() of VectorWithOffset fits the storage (range just "
+        "established by resize(), or range reset to the start of the allocation + capacity test/reserve for the source's size + length "
+        "taken from the source, on every path).",
         technique="static analysis: interval entailment from must-facts over clang CFG, loop-shape invariants, API post-condition summaries",
     ),
     "C05": dict(
@@ -35,7 +38,10 @@ CLAIMED = {
         "sensitivity_uses_same_projector(), for every entry state the flag invariant allows: the 'internal error' branch is unreachable, "
         "the computation always runs with the set-up matching its projectors, no flag is read undefined, the invariant is restored - so "
         "the set-up does not depend on which quantity is requested first; (b) every public set_* of the objective-function hierarchy that "
-        "overwrites a field invalidates already_set_up (comparison-before-overwrite idiom checked). All formula clauses of C05 (value, "
+        "overwrites a field invalidates already_set_up (comparison-before-overwrite idiom checked); (c) every viewgram set handed back by "
+        "get_viewgrams is end-plane-zeroed after its last modification when requested; (d) accumulators start from zero: every path to "
+        "add_subset_sensitivity(slot[k], k) zero-fills the slot, replaces it by a fresh empty copy or (subset sensitivities off) aliases it "
+        "to slot 0, and distributable_computation zeroes its optional outputs before accumulating. All formula clauses of C05 (value, "
         "gradient, sensitivity, Hessian, subset sums, penalised = unpenalised - prior) are numerical and NOT decided.",
         technique="static analysis: finite-domain abstract interpretation of flag typestate over clang CFG; setter-invalidation "
         "must-pass-through with idiom ordering",
@@ -48,7 +54,9 @@ CLAIMED = {
         "paths; every direct write to shared storage in each of the 17 parallel regions and in the projectors' entry points is synchronised, "
         "per-thread, a reduction or indexed by the loop's own variable; every non-const call on a shared object in a region is synchronised "
         "or a reviewed thread-safe entry point; stream/buffer accesses of the file and memory ProjData back-ends are inside their named "
-        "critical; scatter-cache cells are accessed atomically. NOT decided: numerical equality up to reassociation, memory-model adequacy of "
+        "critical; scatter-cache cells are accessed atomically; the append-only detection-point table is reserved before use; per-thread "
+        "accumulators (containers indexed by omp_get_thread_num()) are reduced and reset completely - every loop over them outside a "
+        "region visits all slots and is never left early. NOT decided: numerical equality up to reassociation, memory-model adequacy of "
         "omp atomic, thread-safety inside callees beyond the reviewed table.",
         technique="static analysis: OpenMP-aware AST/CFG rules (typestate of double-checked locking, lock pairing by must-pass-through, "
         "shared-write discipline with data-sharing classification)",
@@ -61,7 +69,9 @@ CLAIMED = {
         "member->apply <-> member->undo), including the ProjData and only_first/only_second variants; the chain's efficiency is the product "
         "of its members' with absent members as 1 and apply/undo visit each member once; check() precedes every modification; the chain "
         "sets up base and members and propagates failure; every set_up is idempotent (no member updated from its own previous value); the "
-        "trivial normalisation's apply/undo are empty. Efficiency values, ACF = exp(line integral), positivity are NOT decided.",
+        "trivial normalisation's apply/undo are empty; apply/undo/get_bin_efficiency and the helpers of their class they call assign no "
+        "member of the object (no hidden state: the factor of a bin cannot depend on the object's history). Efficiency values, "
+        "ACF = exp(line integral), positivity are NOT decided.",
         technique="static analysis: sibling (dual) agreement of effect summaries with data-flow source signatures, must-pass-through, "
         "self-dependence of member updates in set_up",
     ),
@@ -73,7 +83,9 @@ CLAIMED = {
         "that one function with its own subset arguments; the ordered schedule advances the subset index by one per sub-iteration, the "
         "random schedule indexes with the expression of its regeneration test and the random order exists before its first read for "
         "every start sub-iteration (abstract interpretation); the view symmetries are off whenever num_views is not divisible by 4 "
-        "resp. 2 on every constructor path. NOT decided: that randomly_permute_subset_order returns a permutation; that "
+        "resp. 2 on every constructor path; get_subset_num() (which draws a new random order) is consulted exactly once per "
+        "sub-iteration: one call outside any loop in each update_estimate implementation and no call anywhere else in the library. "
+        "NOT decided: that randomly_permute_subset_order returns a permutation; that "
         "is_basic/related views partition the views for each symmetry class (modular arithmetic over num_views).",
         technique="static analysis: normalised loop descriptors, sibling agreement, resolved-callee argument pass-through, "
         "finite-domain abstract interpretation over clang CFG",
@@ -97,7 +109,7 @@ CLAIMED = {
         "caches before and full mode after the symmetry transformation; set_up empties the cache on every path and may return early "
         "only under equality of every member it derives from its arguments; the ray-tracing matrix's setters clear already_setup and rows "
         "are only computed after set_up; for each of the 16 symmetry operations the bin-level and view/segment-level maps agree branch by "
-        "branch (affine summaries). NOT decided: that the chosen symmetry operation maps the basic bin back to the requested bin, "
+        "branch (affine summaries). every constructor path of the symmetries object ends with `90-degree view symmetry on => 180-degree view symmetry on` for all settings of the switches (abstract interpretation of member initialisers and body; the finder and the operation lookup rely on it). NOT decided: that the chosen symmetry operation maps the basic bin back to the requested bin, "
         "agreement with the image transformation, non-negativity / in-image / no duplicate voxel (ray-tracing numerics).",
         technique="static analysis: bit-field layout algebra, must-pass-through ordering on clang CFG, must-facts at early returns, "
         "affine path summaries compared between sibling functions",
@@ -153,7 +165,9 @@ CLAIMED = {
         "every [c + d] subscript stays inside the image; every summand is proportional to weights[dz][dy][dx], multiplied under do_kappa by "
         "both voxels' kappa, and the result is multiplied exactly once by penalisation_factor; by closed-form algebra (sympy, both signs of "
         "x-y, symbolic parameters) the gradient summand is d/dx of the value's two visits of the voxel pair including the scale factors, "
-        "vanishes for equal voxels, derivative_20/derivative_11 are its partial derivatives and derivative_11 is symmetric. NOT decided: "
+        "vanishes for equal voxels, derivative_20/derivative_11 are its partial derivatives and derivative_11 is symmetric; in "
+        "accumulate_Hessian_times_input the summand is w*(d20*v_c + d11*v_nb) off the centre and w*d20*v_c at the centre and every "
+        "`continue` shortcut only skips summands that vanish under its condition (H v stays linear in v). NOT decided: "
         "PLSPrior, positive semi-definiteness, floating-point agreement with finite differences, degenerate epsilon == 0 branches.",
         technique="static analysis: loop-bound shape rule for neighbour offsets, closed-form calculus (sympy) on extracted summands "
         "with helper functions inlined",
@@ -165,7 +179,7 @@ CLAIMED = {
         "arguments) up to forward_project<->back_project; forward projection into a data set writes only set_related_viewgrams of its "
         "subset and fill(0) under the zero flag; only the image-taking back_project wrapper starts a new target; the on-the-fly ray-tracing "
         "projector's tangential loop starts at the smallest |tangential position| of the requested range in all three sign configurations "
-        "(case analysis). Linearity, adjointness, additivity and on-the-fly = matrix equality are numerical and NOT decided.",
+        "(case analysis). the range-taking convenience overloads of the projector base classes hand the caller's viewgrams and ranges to the implementation slot by slot (missing ranges = the viewgrams' full ranges) and the forward wrappers write nothing themselves. Linearity, adjointness, additivity and on-the-fly = matrix equality are numerical and NOT decided.",
         technique="static analysis: dual sibling comparison of call skeletons, must-facts guards, who-may-call, sign-case evaluation of "
         "an integer expression",
     ),
@@ -176,7 +190,8 @@ CLAIMED = {
         "path to success and the image readers test read_data's result (a short file is reported); read_data and write_data handle the "
         "same NumericType enumerators, all but BIT/UNKNOWN_TYPE; the writer's first-pixel offset is voxel_size*min_index+origin and the "
         "reader recomputes origin = offset - voxel_size*min_index' with matching axes (first voxel position preserved); the scale factor "
-        "for scaled-integer output pairs each data extreme with the output limit of the same sign and has a safety factor > 1. NOT "
+        "for scaled-integer output pairs each data extreme with the output limit of the same sign and has a safety factor > 1; a "
+        "non-vectorised exam-information key is emitted under conditions on its own value only, never on what is stored under another key. NOT "
         "decided: value preservation/quantisation bounds numerically, exam-info values through formatting/parsing, dynamic/parametric "
         "container bookkeeping.",
         technique="static analysis: writer/reader key-table agreement, must-pass-through, switch exhaustiveness and sibling agreement, "
@@ -187,7 +202,7 @@ CLAIMED = {
         "drawn per sub-iteration and used both for the gradient-plus-sensitivity and for the subset sensitivity it is divided by; the "
         "update image is computed, divided, optionally limited and only then multiplied into the current image on every path; on the prior "
         "branch the denominator loop computes exactly clamp(g/N + s, s/10, 10 s) (additive) resp. s*clamp(1+g, 1/10, 10) (multiplicative) "
-        "- the documented bounds, compared as piecewise-linear functions - and the division follows that loop. The EM update formula, "
+        "- the documented bounds, compared as piecewise-linear functions with C++ integer division semantics - and the division follows that loop. The EM update formula, "
         "non-negativity, monotonicity, count preservation and restart equivalence are NOT decided.",
         technique="static analysis: must-pass-through ordering with resolved operands, closed-form evaluation of a straight-line loop "
         "body and exact piecewise-linear comparison",
